@@ -2359,3 +2359,139 @@ func c19R10(c *Ctx, r *Report) {
 	}
 	r.Note("%s: %d diagnostics are located under a nil test of a nil-declared local (expected 0 after D-96; selftest: the reverse of the D-96 repair)", rule, n)
 }
+
+// ---- C15.R11: different modules get different symbols ---------------------------------------------------------
+
+func init() {
+	lateInits = append(lateInits, func() {
+		props["C15"].Quick = append(props["C15"].Quick, c15R11)
+		props["C14"].Quick = append(props["C14"].Quick, c15R11)
+		props["C15"].Explanation += " (R11) the name a module's import path contributes to linker symbols and generated file names (pipeline.sanitizeModuleName, the QBE and wasm function-name builders) is computed by a function that is not many-to-one by construction: no replacer that sends two different strings to the same text, no replacement of the path separator by a character that paths may contain, and an escape introducer that is itself escaped."
+	})
+}
+
+func c15R11(c *Ctx, r *Report) {
+	const rule = "C15.R11"
+	r.Describe(rule, "pipeline.sanitizeModuleName, qbe.qbeFuncName, wasm.funcName: every function applied to the import path (transitively, inside the module) is free of strings.NewReplacer / ReplaceAll / Replace calls that map to an identifier character; a byte-wise encoder writes pairwise different constants and has a case for the character its escapes start with")
+	type site struct{ pkg, fn, param string }
+	sites := []site{{pkgPipe, "(*Pipeline).sanitizeModuleName", "importPath"}, {pkgQBE, "(*Generator).qbeFuncName", "importPath"}, {pkgWasm, "(*Generator).funcName", "importPath"}}
+	var manyToOne func(f *types.Func, depth int) string
+	manyToOne = func(f *types.Func, depth int) string {
+		hf := c.FnOf(f)
+		if hf == nil || hf.Decl == nil || hf.Decl.Body == nil || depth > 3 {
+			return ""
+		}
+		info := hf.Info()
+		bad := ""
+		var consts []string
+		hasUnderscoreCase := false
+		ast.Inspect(hf.Decl.Body, func(x ast.Node) bool {
+			switch y := x.(type) {
+			case *ast.CaseClause:
+				for _, e := range y.List {
+					ast.Inspect(e, func(z ast.Node) bool {
+						if bl, ok := z.(*ast.BasicLit); ok && bl.Value == "'_'" {
+							hasUnderscoreCase = true
+						}
+						return true
+					})
+				}
+			case *ast.CallExpr:
+				g := callee(info, y)
+				if g == nil {
+					return true
+				}
+				if g.Pkg() != nil && g.Pkg().Path() == "strings" {
+					switch g.Name() {
+					case "NewReplacer":
+						seen := map[string]string{}
+						for i := 1; i < len(y.Args); i += 2 {
+							v := constOf(info, y.Args[i])
+							if v == nil || v.Kind() != constant.String {
+								continue
+							}
+							nw := constant.StringVal(v)
+							if prev, dup := seen[nw]; dup {
+								bad = fmt.Sprintf("%s sends %s and %s to the same text %q", hf.Name(), prev, exprStr(y.Args[i-1]), nw)
+							}
+							seen[nw] = exprStr(y.Args[i-1])
+						}
+					case "ReplaceAll", "Replace":
+						if len(y.Args) >= 3 {
+							if v := constOf(info, y.Args[2]); v != nil && v.Kind() == constant.String {
+								if nw := constant.StringVal(v); nw != "" && strings.Trim(nw, "abcdefghijklmnopqrstuvwxyzABCDEFGHIJKLMNOPQRSTUVWXYZ0123456789_") == "" {
+									bad = fmt.Sprintf("%s replaces %s by %q, which the text may already contain", hf.Name(), exprStr(y.Args[1]), nw)
+								}
+							}
+						}
+					}
+				}
+				if g.Name() == "WriteString" && len(y.Args) == 1 {
+					if v := constOf(info, y.Args[0]); v != nil && v.Kind() == constant.String {
+						consts = append(consts, constant.StringVal(v))
+					}
+				}
+				if g.Pkg() != nil && strings.HasPrefix(g.Pkg().Path(), Mod+"/") && g != f {
+					if b := manyToOne(g, depth+1); b != "" && bad == "" {
+						bad = b
+					}
+				}
+			}
+			return true
+		})
+		seen := map[string]bool{}
+		intro := false
+		for _, s := range consts {
+			if seen[s] {
+				bad = fmt.Sprintf("%s writes the code %q for two different bytes", hf.Name(), s)
+			}
+			seen[s] = true
+			if strings.HasPrefix(s, "_") {
+				intro = true
+			}
+		}
+		if intro && !hasUnderscoreCase && bad == "" {
+			bad = hf.Name() + " escapes with '_' but copies a literal '_' unchanged"
+		}
+		return bad
+	}
+	n := 0
+	for _, sd := range sites {
+		fn := c.LookupFn(sd.pkg, sd.fn)
+		if !r.Anchor(rule, fn != nil, sd.pkg+"."+sd.fn) {
+			continue
+		}
+		info := fn.Info()
+		var param types.Object
+		sig := fn.Obj.Type().(*types.Signature)
+		for i := 0; i < sig.Params().Len(); i++ {
+			if sig.Params().At(i).Name() == sd.param {
+				param = sig.Params().At(i)
+			}
+		}
+		if !r.Anchor(rule, param != nil, fn.Name()+": parameter "+sd.param) {
+			continue
+		}
+		// calls whose argument (transitively nested) is the import path
+		for _, cl := range callsIn(fn.Decl.Body, false) {
+			uses := false
+			for _, a := range cl.Args {
+				ast.Inspect(a, func(x ast.Node) bool {
+					if id, ok := x.(*ast.Ident); ok && info.Uses[id] == param {
+						uses = true
+					}
+					return true
+				})
+			}
+			g := callee(info, cl)
+			if !uses || g == nil || g.Pkg() == nil || !strings.HasPrefix(g.Pkg().Path(), Mod+"/") {
+				continue
+			}
+			n++
+			bad := manyToOne(g, 0)
+			r.Check(bad == "", rule, fn.Name(), "module name through "+g.Name()+" is one-to-one", c.pos(cl.Pos()),
+				bad+": the modules col/a_b and col/a/b get the same object file (gen/col_a_b.o) and the same symbols, and the program fails to link (\"multiple definition of `col_a_b_Name'\")")
+		}
+	}
+	r.Floor(rule, n, 3, "module-name encoders applied to an import path")
+}
